@@ -11,6 +11,7 @@ pub mod chat;
 pub mod reg;
 pub mod life;
 pub mod c12;
+pub mod c13;
 
 pub fn threads() -> usize {
     std::env::var("VERIF_THREADS")
@@ -37,6 +38,7 @@ pub fn plan(property: &str, tier: &str) -> Option<Plan> {
         "C02" | "C03" => Some(reg::plan(property, quick)),
         "C06" | "C11" | "C19" => Some(life::plan(property, quick)),
         "C12" => Some(c12::plan(quick)),
+        "C13" => Some(c13::plan(quick)),
         "C01" | "C07" | "C08" | "C09" | "C10" | "C15" | "C16" => Some(chat::plan(property, quick)),
         _ => None,
     }
@@ -65,6 +67,7 @@ pub const ALL: &[&str] = &[
 pub fn replay_fun(property: &str, scenario: &str, input: &serde_json::Value) -> Vec<crate::check::Finding> {
     match property {
         "C14" => c14::replay_fun(scenario, input),
+        "C13" => c13::replay_fun(scenario, input),
         "C07" | "C08" | "C16" => chat::replay_fun(property, scenario, input),
         _ => vec![],
     }
